@@ -10,26 +10,26 @@ namespace Minicbor
 open Dec
 
 /-- `k` iterations take the loop from `(c, bs)` to `(c', bs')`, whatever the spare fuel. -/
-def Steps (alloc : Bool) (k : Nat) (c : SkipSt) (bs : Bytes) (c' : SkipSt) (bs' : Bytes) : Prop :=
+def SkipSteps (alloc : Bool) (k : Nat) (c : SkipSt) (bs : Bytes) (c' : SkipSt) (bs' : Bytes) : Prop :=
   ∀ f, skipLoop alloc (f + 1 + k) c bs = skipLoop alloc (f + 1) c' bs'
 
-theorem Steps.refl (alloc : Bool) (c : SkipSt) (bs : Bytes) : Steps alloc 0 c bs c bs := fun _ => rfl
+theorem SkipSteps.refl (alloc : Bool) (c : SkipSt) (bs : Bytes) : SkipSteps alloc 0 c bs c bs := fun _ => rfl
 
-theorem Steps.trans {alloc : Bool} {k1 k2 : Nat} {c c1 c2 : SkipSt} {bs bs1 bs2 : Bytes}
-    (h1 : Steps alloc k1 c bs c1 bs1) (h2 : Steps alloc k2 c1 bs1 c2 bs2) :
-    Steps alloc (k1 + k2) c bs c2 bs2 := by
+theorem SkipSteps.trans {alloc : Bool} {k1 k2 : Nat} {c c1 c2 : SkipSt} {bs bs1 bs2 : Bytes}
+    (h1 : SkipSteps alloc k1 c bs c1 bs1) (h2 : SkipSteps alloc k2 c1 bs1 c2 bs2) :
+    SkipSteps alloc (k1 + k2) c bs c2 bs2 := by
   intro f
   have e : f + 1 + (k1 + k2) = (f + k2) + 1 + k1 := by omega
   rw [e, h1 (f + k2)]
   have e2 : f + k2 + 1 = f + 1 + k2 := by omega
   rw [e2, h2 f]
 
-theorem Steps.next {alloc : Bool} {c s1 : SkipSt} {bs r : Bytes} (hrun : skipRunning alloc c = true)
-    (harm : skipArm alloc c bs = .ok (.next s1) r) : Steps alloc 1 c bs (postSt alloc s1) r :=
+theorem SkipSteps.next {alloc : Bool} {c s1 : SkipSt} {bs r : Bytes} (hrun : skipRunning alloc c = true)
+    (harm : skipArm alloc c bs = .ok (.next s1) r) : SkipSteps alloc 1 c bs (postSt alloc s1) r :=
   fun f => loop_next alloc c s1 bs r f hrun harm
 
-theorem Steps.cont {alloc : Bool} {c s1 : SkipSt} {bs r : Bytes} (hrun : skipRunning alloc c = true)
-    (harm : skipArm alloc c bs = .ok (.cont s1) r) : Steps alloc 1 c bs s1 r :=
+theorem SkipSteps.cont {alloc : Bool} {c s1 : SkipSt} {bs r : Bytes} (hrun : skipRunning alloc c = true)
+    (harm : skipArm alloc c bs = .ok (.cont s1) r) : SkipSteps alloc 1 c bs s1 r :=
   fun f => loop_cont alloc c s1 bs r (f + 1) hrun harm
 
 theorem headW_length (m : Nat) (w : Width) (n : Nat) : (headW m w n).length = 1 + w.bytes := by
@@ -50,8 +50,8 @@ theorem leaf_steps (bs : Bytes) (hpos : 1 ≤ bs.length)
     (harm : ∀ s rest, skipArm true s (bs ++ rest) = .ok (.next s) rest)
     (c : SkipSt) (a : Nat) (r : List Nat) (rest : Bytes)
     (hrel : Rel c (a :: r)) (hl : 1 ≤ a ∨ r ≠ []) :
-    ∃ k c', k ≤ bs.length ∧ Steps true k c (bs ++ rest) c' rest ∧ Rel c' ((a - 1) :: r) :=
-  ⟨1, postSt true c, hpos, Steps.next (rel_running hrel hl) (harm c rest), rel_item hrel⟩
+    ∃ k c', k ≤ bs.length ∧ SkipSteps true k c (bs ++ rest) c' rest ∧ Rel c' ((a - 1) :: r) :=
+  ⟨1, postSt true c, hpos, SkipSteps.next (rel_running hrel hl) (harm c rest), rel_item hrel⟩
 
 theorem satMul2_half (l : Nat) (he : l % 2 = 0) (hl : l ≤ U64MAX) : satMul2 (l / 2) = l := by
   unfold satMul2
@@ -60,7 +60,7 @@ theorem satMul2_half (l : Nat) (he : l % 2 = 0) (hl : l ≤ U64MAX) : satMul2 (l
 
 /-- conclusion shape shared by the item- and list-level lemmas. -/
 def Reaches (c : SkipSt) (bs rest : Bytes) (T' : List Nat) : Prop :=
-  ∃ k c', k ≤ bs.length ∧ Steps true k c (bs ++ rest) c' rest ∧ Rel c' T'
+  ∃ k c', k ≤ bs.length ∧ SkipSteps true k c (bs ++ rest) c' rest ∧ Rel c' T'
 
 mutual
 /-- every valid item acts like a scalar: `a :: r ↦ (a - 1) :: r`, consuming exactly its bytes. -/
@@ -119,7 +119,7 @@ theorem item_steps : (w : WItem) → w.valid = true → ∀ (c : SkipSt) (a : Na
     obtain ⟨k, c', hk, hs, hr⟩ := item_steps x hv.2 c a r rest hrel hl (by omega)
     refine ⟨1 + k, c', by simp [headW_length]; omega, ?_, hr⟩
     rw [List.append_assoc]
-    exact Steps.trans (Steps.cont (rel_running hrel hl) (arm_tag true c w n _ hv.1)) hs
+    exact SkipSteps.trans (SkipSteps.cont (rel_running hrel hl) (arm_tag true c w n _ hv.1)) hs
   | .array w xs, hv, c, a, r, rest, hrel, hl, hb => by
     simp only [WItem.valid, Bool.and_eq_true] at hv
     simp only [encW, List.length_append, headW_length] at hb ⊢
@@ -129,7 +129,7 @@ theorem item_steps : (w : WItem) → w.valid = true → ∀ (c : SkipSt) (a : Na
       (Or.inl (by omega)) (by omega)
     refine ⟨1 + k, c', by simp [headW_length]; omega, ?_, ?_⟩
     · rw [List.append_assoc]
-      exact Steps.trans (Steps.next (rel_running hrel hl) (arm_array true c w _ _ hv.1)) hs
+      exact SkipSteps.trans (SkipSteps.next (rel_running hrel hl) (arm_array true c w _ _ hv.1)) hs
     · have e : a - 1 + xs.length - xs.length = a - 1 := by omega
       rwa [e] at hr
   | .map w xs, hv, c, a, r, rest, hrel, hl, hb => by
@@ -143,7 +143,7 @@ theorem item_steps : (w : WItem) → w.valid = true → ∀ (c : SkipSt) (a : Na
     · rw [List.append_assoc]
       have harm := arm_map true c w _ (encWs xs ++ rest) hv.1.2
       rw [satMul2_half _ hv.1.1 (by omega)] at harm
-      exact Steps.trans (Steps.next (rel_running hrel hl) harm) hs
+      exact SkipSteps.trans (SkipSteps.next (rel_running hrel hl) harm) hs
     · have e : a - 1 + xs.length - xs.length = a - 1 := by omega
       rwa [e] at hr
   | .arrayI xs, hv, c, a, r, rest, hrel, hl, hb => by
@@ -159,8 +159,8 @@ theorem item_steps : (w : WItem) → w.valid = true → ∀ (c : SkipSt) (a : Na
     rw [hi] at harm
     have e : (0x9f :: (encWs xs ++ [0xff])) ++ rest = 0x9f :: (encWs xs ++ 0xff :: rest) := by simp
     rw [e]
-    refine Steps.trans (Steps.trans (Steps.next (rel_running hrel hl) harm) hs) ?_
-    exact Steps.next (rel_running hr (Or.inr (by simp))) (arm_brk true c2 rest)
+    refine SkipSteps.trans (SkipSteps.trans (SkipSteps.next (rel_running hrel hl) harm) hs) ?_
+    exact SkipSteps.next (rel_running hr (Or.inr (by simp))) (arm_brk true c2 rest)
   | .mapI xs, hv, c, a, r, rest, hrel, hl, hb => by
     simp only [WItem.valid, Bool.and_eq_true] at hv
     simp only [encW, List.length_append, List.length_cons, List.length_nil] at hb ⊢
@@ -174,8 +174,8 @@ theorem item_steps : (w : WItem) → w.valid = true → ∀ (c : SkipSt) (a : Na
     rw [hi] at harm
     have e : (0xbf :: (encWs xs ++ [0xff])) ++ rest = 0xbf :: (encWs xs ++ 0xff :: rest) := by simp
     rw [e]
-    refine Steps.trans (Steps.trans (Steps.next (rel_running hrel hl) harm) hs) ?_
-    exact Steps.next (rel_running hr (Or.inr (by simp))) (arm_brk true c2 rest)
+    refine SkipSteps.trans (SkipSteps.trans (SkipSteps.next (rel_running hrel hl) harm) hs) ?_
+    exact SkipSteps.next (rel_running hr (Or.inr (by simp))) (arm_brk true c2 rest)
 
 /-- a sequence of valid items: `a :: r ↦ (a - n) :: r`. -/
 theorem items_steps : (xs : List WItem) → validAll xs = true → ∀ (c : SkipSt) (a : Nat) (r : List Nat) (rest : Bytes),
@@ -184,7 +184,7 @@ theorem items_steps : (xs : List WItem) → validAll xs = true → ∀ (c : Skip
     Reaches c (encWs xs) rest ((a - xs.length) :: r)
   | [], _, c, a, r, rest, hrel, _, _ => by
     simp only [encWs, List.length_nil, Nat.sub_zero]
-    exact ⟨0, c, by simp, Steps.refl _ _ _, hrel⟩
+    exact ⟨0, c, by simp, SkipSteps.refl _ _ _, hrel⟩
   | x :: xs, hv, c, a, r, rest, hrel, hl, hb => by
     simp only [validAll, Bool.and_eq_true] at hv
     simp only [encWs, List.length_append, List.length_cons] at hb hl ⊢
@@ -195,7 +195,7 @@ theorem items_steps : (xs : List WItem) → validAll xs = true → ∀ (c : Skip
     obtain ⟨k2, c2, hk2, hs2, hr2⟩ := items_steps xs hv.2 c1 (a - 1) r rest hr1
       (by rcases hl with h | h; exact Or.inl (by omega); exact Or.inr h) (by omega)
     refine ⟨k1 + k2, c2, by simp only [List.length_append]; omega, ?_, ?_⟩
-    · rw [List.append_assoc]; exact Steps.trans hs1 hs2
+    · rw [List.append_assoc]; exact SkipSteps.trans hs1 hs2
     · have e : a - 1 - xs.length = a - (xs.length + 1) := by omega
       rwa [e] at hr2
 end
